@@ -29,7 +29,7 @@ SPEC = {
                   "(C11 decides about refused syncs).",
     "rule": "case = one crash point (scenario, block, write index k) followed by restart + re-feed; distinct_nontrivial = distinct (scenario, phase, write index, block) tuples; "
             "job realsync-crash: case = one crash point (plan, write index k) of a real fast sync followed by restart + completion + comparison; distinct = distinct (world, plan, phase, write class, k)",
-    "jobs": [Job("crash", "verifsim", "^TestVerifC09$", shards=(8, 16), timeout=(900, 3600)),
+    "jobs": [Job("crash", "verifsim", "^TestVerifC09$", shards=(8, 16), timeout=(900, 7200)),
              Job("realsync-crash", "protocol", "^TestVerifC09RealFastSync$", shards=(8, 12), timeout=(900, 5400), extra_tags="c09")],
     "floors": {"crash_points": (800, 8000), "phase:batch:stateTree": 100, "phase:batch:identityTree": 100, "phase:set:head": 60,
                "phase:set:header-or-canonical": 100, "phase:set:txIndex": 30, "scenario:ForkSwitch(ResetTo+ApplyFork)": 100,
